@@ -61,13 +61,34 @@ def showEntry (e : Entry) : String :=
      toString e.elapsedMs, toString e.asn, toString e.qtype, toString e.rcode, toString e.proto,
      showB e.dnssec]
 
-def ipk! : String → IPKind
-  | "addr" => .addr | "unspec" => .unspec | _ => .none
-
 def showIPK : IPKind → String
   | .none => "none" | .unspec => "unspec" | .addr => "addr"
 
-def resp! (rcode ad ip : String) : RespData := ⟨nat! rcode, bool! ad, ipk! ip⟩
+def ipval! : String → IPVal
+  | "addr" => .addr | "unspec" => .unspec | "bad" => .bad | _ => .nil
+
+def hints! (s : String) : List IPVal := if s == "" then [] else (s.splitOn "+").map ipval!
+
+/-- `o`, `4:K+K`, `6:K+K`. -/
+def kv! (s : String) : KV :=
+  match s.splitOn ":" with
+  | ["4", hs] => .hint4 (hints! hs)
+  | ["6", hs] => .hint6 (hints! hs)
+  | _ => .other
+
+/-- `o`, `a:K`, `aaaa:K`, `https:KV;KV`. -/
+def rr! (s : String) : RR :=
+  if s.startsWith "a:" then .a (ipval! (s.drop 2).toString)
+  else if s.startsWith "aaaa:" then .aaaa (ipval! (s.drop 5).toString)
+  else if s.startsWith "https:" then
+    let rest := (s.drop 6).toString
+    .https (if rest == "" then [] else (rest.splitOn ";").map kv!)
+  else .other
+
+/-- The answer-section shape: `-` or a comma-separated list of records. -/
+def answer! (s : String) : List RR := if s == "-" then [] else (s.splitOn ",").map rr!
+
+def resp! (rcode ad shape : String) : RespData := RespData.ofMsg (nat! rcode) (bool! ad) (answer! shape)
 
 def showResp (r : RespData) : String := s!"{r.rcode},{showB r.ad},{showIPK r.ip}"
 
